@@ -1,7 +1,7 @@
 (* run_cmd : the single entry point of the extracted model. A command is
    (L (A code :: args)); decoding and encoding are Gallina. *)
 From Coq Require Import List ZArith NArith Bool.
-From BS Require Import Base.Sexp Base.Types Base.Reader Model.Registry Model.SmartQuotes Model.Attrs Model.Heap Model.Edit Model.Build Model.Iter Spec.Tree Spec.BuildSpec Spec.ListEdit.
+From BS Require Import Base.Sexp Base.Types Base.Reader Model.Registry Model.SmartQuotes Model.Attrs Model.Heap Model.Edit Model.Build Model.Iter Model.EditOps Spec.Tree Spec.BuildSpec Spec.ListEdit.
 Import ListNotations.
 Open Scope Z_scope.
 
@@ -135,27 +135,32 @@ Definition g_arg (s : sexp) : arg :=
   | [A 1; t] => AStr (gstr t)
   | _ => AStr []
   end.
-Definition run_op (s : st) (o : sexp) : res st :=
+(* an editing call as the model's [op] *)
+Definition g_op (o : sexp) : option op :=
   match gL o with
-  | [A 0; self; pos; args] => op_insert s (gnat self) (gnat pos) (glist g_arg args)
-  | [A 1; self; a] => op_append s (gnat self) (g_arg a)
-  | [A 2; self; other] => op_extend_tag s (gnat self) (gnat other)
-  | [A 3; self; args] => op_extend_list s (gnat self) (glist g_arg args)
-  | [A 4; self; args] => op_insert_before s (gnat self) (glist g_arg args)
-  | [A 5; self; args] => op_insert_after s (gnat self) (glist g_arg args)
-  | [A 6; x] => op_extract s (gnat x)
-  | [A 7; self; args] => op_replace_with s (gnat self) (glist g_arg args)
-  | [A 8; self; w] => op_wrap s (gnat self) (gnat w)
-  | [A 9; self] => op_unwrap s (gnat self)
-  | [A 10; x] => op_decompose s (gnat x)
-  | [A 11; self; d] => op_clear s (gnat self) (gbool d)
-  | [A 12; self; t] => op_set_string s (gnat self) (gstr t)
-  | [A 13; self] => op_smooth s (gnat self)
+  | [A 0; self; pos; args] => Some (OInsert (gnat self) (gnat pos) (glist g_arg args))
+  | [A 1; self; a] => Some (OAppend (gnat self) (g_arg a))
+  | [A 2; self; other] => Some (OExtendTag (gnat self) (gnat other))
+  | [A 3; self; args] => Some (OExtendList (gnat self) (glist g_arg args))
+  | [A 4; self; args] => Some (OInsertBefore (gnat self) (glist g_arg args))
+  | [A 5; self; args] => Some (OInsertAfter (gnat self) (glist g_arg args))
+  | [A 6; x] => Some (OExtract (gnat x))
+  | [A 7; self; args] => Some (OReplaceWith (gnat self) (glist g_arg args))
+  | [A 8; self; w] => Some (OWrap (gnat self) (gnat w))
+  | [A 9; self] => Some (OUnwrap (gnat self))
+  | [A 10; x] => Some (ODecompose (gnat x))
+  | [A 11; self; d] => Some (OClear (gnat self) (gbool d))
+  | [A 12; self; t] => Some (OSetString (gnat self) (gstr t))
+  | [A 13; self] => Some (OSmooth (gnat self))
   | [A 14; k; label] =>
-      let kd := match gZ k with 0 => KTag | 1 => KStr false | 2 => KStr true | _ => KSoup end in
-      Ok (fst (alloc s kd (gstr label)))
-  | _ => ValueError
+      Some (OAlloc (match gZ k with 0 => KTag | 1 => KStr false | 2 => KStr true | _ => KSoup end) (gstr label))
+  | _ => None
   end.
+(* the call itself is Model.EditOps.apply_op — the function the theorems of Proofs/EditRep.v are about *)
+Definition run_op (s : st) (o : sexp) : res st :=
+  match g_op o with Some op => apply_op s op | None => ValueError end.
+Definition wf_sexp_op (s : st) (o : sexp) : bool :=
+  match g_op o with Some op => wf_op_b s op | None => false end.
 (* the six traversal generators (Model/Iter.v) of every element of the final state *)
 Definition s_views (s : st) : sexp :=
   let f := fuel_of s in let h := hp s in
@@ -167,8 +172,8 @@ Fixpoint run_ops (s : st) (ops : list sexp) : list sexp :=
   | [] => [s_views s]
   | o :: ops' =>
       match run_op s o with
-      | Ok s' => L [A 0; s_state s'; sbool (consistent_b (nxt s') (hp s'))] :: run_ops s' ops'
-      | ValueError => L [A 1; s_state s; sbool (consistent_b (nxt s) (hp s))] :: run_ops s ops'
+      | Ok s' => L [A 0; s_state s'; sbool (consistent_b (nxt s') (hp s')); sbool (wf_sexp_op s o)] :: run_ops s' ops'
+      | ValueError => L [A 1; s_state s; sbool (consistent_b (nxt s) (hp s)); sbool (wf_sexp_op s o)] :: run_ops s ops'
       end
   end.
 (* (30 cfg events) -> final build state with payloads *)
